@@ -48,12 +48,40 @@ RATE_MIN_CASES = 40
 N_CASES = {"quick": {"homog": 150, "precip": 100, "brentq": 120},
            "thorough": {"homog": 5000, "precip": 1500, "brentq": 5000}}
 
-# DESIGN section 9, F-C08: fixed case so that the finding fires on every run
+# DESIGN section 9, F-C08: fixed case so that the finding fires on every run (chain Lin: conservation AND Q != K)
 WITNESS = {"kind": "homog", "id": "witness-F-C08",
            "names": ["H2O", "H+", "OH-", "H2PO4-", "HPO4-2"],
            "rxns": ["water", "phosphoric2"],
            "K": [1e-14 / 55.5, 10 ** -7.2],
            "c0": [55.5, 1e-3, 1e-2, 1e-2, 1e-3], "kwargs": {}}
+# chain Lin, elements and charge conserved but Q/K - 1 = 0.53 for Cu+2 + NH3 = CuNH3+2 (found by this generator)
+WITNESS_Q = {"kind": "homog", "id": "witness-F-C08-quotient",
+             "names": ["CuNH3+2", "Cu+2", "NH3", "H+", "OH-", "H2O"], "rxns": ["water", "cunh3_1"],
+             "K": [2.0174728591866805e-18, 22.66170378792828],
+             "c0": [0.0595581922214397, 0.008622022551379099, 0.010410169905107599, 0.015462134767624076,
+                    5.693849801309474e-05, 55.5], "kwargs": {}}
+# F-C08b: the DEFAULT chain (NumSysLog) claims success and sane for a state from which all phosphate and the
+# spectator chloride have vanished (found by this generator, thorough tier, seed 0, case h3291).  Same root cause
+# as F-C08: nr + #composition keys > ns, so pyneqsys uses scipy 'lm', whose success flag means "local minimum of
+# |f|^2 reached", not "root found".
+WITNESS_B = {"kind": "homog", "id": "witness-F-C08b",
+             "names": ["HPO4-2", "H2PO4-", "H+", "CrO4-2", "OH-", "Cl-", "H2O", "HCrO4-"],
+             "rxns": ["water", "chromate", "phosphoric2"],
+             "K": [6.376514016041779e-14, 8.312009570602504e-08, 1.6264137021196834e-06],
+             "c0": [0.00012051565043724963, 3.391674623353682e-05, 0.05719709276528358, 0.0001234135751377265,
+                    0.002868378558884988, 0.0037859604526426904, 55.5, 0.012655204811479652], "kwargs": {}}
+FIXED = [WITNESS, WITNESS_Q, WITNESS_B]
+
+
+def _recorded(v):
+    """Signature of the recorded findings F-C08 (chain Lin: conservation / quotient) and F-C08b (an element
+    lost, any chain).  Only used to ORDER the violations (anything else first): the reporter forwards the first
+    three per stand-in, and a new kind of violation must never be hidden behind the recorded ones."""
+    if v["symptom"] == "element_lost":
+        return "element_lost"
+    if v["chain"] == "Lin" and v["symptom"] in ("conservation", "quotient"):
+        return "Lin:" + v["symptom"]
+    return None
 
 
 # ------------------------------------------------------------------------------ generators
@@ -330,22 +358,35 @@ def run(tier, seed):
     homog, hres, n_ok = _rate_sample(seed, n["homog"])
     precip = [gen_precip(seed, i) for i in range(n["precip"])]
     pres = _pool_map(run_root_case, precip)
-    wres = run_root_case(WITNESS)
+    wres = [run_root_case(w) for w in FIXED]
 
     viol, calls, claims = [], 0, 0
-    for case, rr in [(WITNESS, wres)] + list(zip(homog, hres)) + list(zip(precip, pres)):
+    for case, rr in list(zip(FIXED, wres)) + list(zip(homog, hres)) + list(zip(precip, pres)):
         for r in rr:
             calls += 1
             claims += r["claimed"]
             if not r["holds"]:
                 viol.append({"inputs": case, "chain": r["chain"], "symptom": r["symptom"],
                              "detail": "[chain %s] %s" % (r["chain"], r["detail"])})
-    # violations outside the known region (chain Lin) first: the reporter forwards only the first few
-    viol.sort(key=lambda v: (v["chain"] == "Lin", v["inputs"]["id"] != WITNESS["id"]))
-    all_cases = [WITNESS] + homog + precip
+    # order: 1. anything that is not of a recorded kind; 2. one representative per recorded kind (the fixed
+    # witnesses, so that the same cases are forwarded on every run); 3. the rest
+    fixed_ids = [w["id"] for w in FIXED]
+    first, rest, seen = [], [], set()
+    for v in sorted(viol, key=lambda v: (v["inputs"]["id"] not in fixed_ids,)):      # stable: fixed cases first
+        sig = _recorded(v)
+        if sig is None:
+            first.append(v)
+        elif sig not in seen:
+            seen.add(sig)
+            first.append(v)
+        else:
+            rest.append(v)
+    first.sort(key=lambda v: (_recorded(v) is not None, _recorded(v) or ""))
+    viol = first + rest
+    all_cases = FIXED + homog + precip
     soundness = {
         "name": "root_soundness",
-        "rule": "fixed witness of DESIGN section 9 (F-C08) + seeded homogeneous systems (water + 1..3 independent "
+        "rule": "3 fixed witnesses (F-C08 of DESIGN section 9, a Q != K witness for chain Lin, F-C08b for the default chain) + seeded homogeneous systems (water + 1..3 independent "
                 "equilibria from a pool of %d acid/base/complexation equilibria, rank S + rank B == ns, constants *10^U(-3,3), every species "
                 "log-uniform 1e-5..1e-1 M, water 55.5 M, 0..2 spectator ions) + single-salt precipitation systems "
                 "(5 salts, written as dissolution or (when solid must remain) as precipitation reaction, Ksp*10^U(-1.5,1.5), amounts 1e-3..3 M, with/without initial solid, default options and the "
@@ -354,13 +395,13 @@ def run(tier, seed):
                 "|B(x-x0)|_k <= 1e-6*sum|B_kj|(|x_j|+x0_j)+1e-12 for every element and charge, |ln Q_i - ln K_i| <= 1e-5 "
                 "for every homogeneous equilibrium, for a salt: (solid > 1e-10 and |ln IP - ln Ksp| <= 1e-5) or "
                 "(solid <= 1e-10 and IP <= Ksp(1+1e-5)); an exception is a violation; oracle from a hand-written "
-                "composition table.  Chain 'Lin' is the region of known finding F-C08." % (len(P.POOL) - 2),
-        "bound": "%d homogeneous + %d precipitation cases + 1 witness, 5 solver paths each; <= 4 equilibria, <= 11 species; "
+                "composition table.  Recorded findings: F-C08 (chain Lin: conservation / quotient), F-C08b (symptom element_lost)." % (len(P.POOL) - 2),
+        "bound": "%d homogeneous + %d precipitation cases + 3 fixed witnesses, 5 solver paths each; <= 4 equilibria, <= 11 species; "
                  "measured: %d calls, %d claims of success and sane" % (len(homog), len(precip), calls, claims),
         "evaluations": calls,
         "distinct": len({_key(c) for c in all_cases}) * len(CHAINS),
         "exhaustive": False,
-        "samples": [WITNESS, homog[0], precip[0]],
+        "samples": [WITNESS, WITNESS_B, homog[0], precip[0]],
         "violations": viol,
     }
 
